@@ -1115,4 +1115,56 @@ theorem canonPath_insert (a mid b : Str) (m : Bool) (h : absPath a = true)
   rw [unquotePath_append_slash, unquotePath_append_slash, unquotePath_append_slash]
   exact segView_insert _ _ _ hmid
 
+/-! ## `normpath` alone (used by the `normalize_url` family) -/
+
+/-- `normpath` of an absolute path (empty, or starting with `/`) -/
+theorem normpath_eq (q : Str) (h : absPath q = true) :
+    normpath q = if (segView q).1 = [] then [] else '/' :: join ['/'] (segView q).1 := by
+  cases q with
+  | nil => decide
+  | cons c r =>
+    have hc : '/' = c := by simpa [absPath, startsWith] using h
+    subst hc
+    exact normpath_abs r
+
+theorem normpath_eq_render (q : Str) (h : absPath q = true) :
+    normpath q = renderSegs ((segView q).1, false) false := by
+  rw [normpath_eq q h]
+  unfold renderSegs
+  by_cases hF : (segView q).1 = []
+  · simp [hF]
+  · simp [hF, isEmpty_eq_false hF]
+
+theorem viewOk_flag (q : Str) (fl : Bool) (h : (segView q).1 ≠ []) : ViewOk ((segView q).1, fl) :=
+  ⟨normal_segView q, fun e => absurd e h⟩
+
+theorem absPath_normpath (q : Str) (h : absPath q = true) : absPath (normpath q) = true := by
+  rw [normpath_eq_render q h]; exact absPath_render _ _
+
+/-- `normpath` is idempotent on absolute paths -/
+theorem normpath_idem (q : Str) (h : absPath q = true) : normpath (normpath q) = normpath q := by
+  by_cases hF : (segView q).1 = []
+  · have : normpath q = [] := by rw [normpath_eq q h]; simp [hF]
+    rw [this]; decide
+  · have e := normpath_eq_render q h
+    rw [normpath_eq_render _ (absPath_normpath q h)]
+    rw [e, segView_render _ _ (viewOk_flag q false hF)]
+
+/-- a trailing slash added to a resolved non-root path is dropped again -/
+theorem normpath_append_slash (q : Str) (h : absPath q = true) (hne : normpath q ≠ []) :
+    normpath (normpath q ++ ['/']) = normpath q := by
+  have hF : (segView q).1 ≠ [] := by
+    intro e; apply hne; rw [normpath_eq q h]; simp [e]
+  have e1 : normpath q ++ ['/'] = renderSegs ((segView q).1, true) false := by
+    rw [normpath_eq q h]
+    simp [renderSegs, hF, isEmpty_eq_false hF]
+  have habs : absPath (normpath q ++ ['/']) = true := by rw [e1]; exact absPath_render _ _
+  rw [normpath_eq_render _ habs, e1, segView_render _ _ (viewOk_flag q true hF),
+    ← normpath_eq_render q h]
+
+/-- `normpath` maps unescaped absolute paths to unescaped paths -/
+theorem unq_normpath (q : Str) (h : absPath q = true) (hq : Unq q) : unquotePath (normpath q) = normpath q := by
+  rw [normpath_eq_render q h]
+  exact unq_render _ _ (fun x hx => unq_segments hq x (segView_subset q x hx))
+
 end Ural.Normpath
